@@ -70,12 +70,13 @@ func verifC19Run(base, target []byte, bs, limit int, wrap bool) {
 }
 
 func VerifC19RoundTrip() {
+	verifPreferSolver("cvc5")
 	n := vParam("maxlen", 3)
 	maxop := vParam("maxop", 2)
-	baseLen := vRange(0, n)
-	targetLen := vRange(0, n)
-	bs := vRange(1, n)
-	limit := vRange(1, maxop)
+	baseLen := vRange(vParam("minbase", 0), n)
+	targetLen := vRange(vParam("mintarget", 0), n)
+	bs := vRange(vParam("minbs", 1), vParam("maxbs", n))
+	limit := vRange(vParam("minop", 1), maxop)
 	wrap := false
 	if vParam("wrap", 0) == 1 {
 		wrap = vChoose(2) == 1
@@ -92,6 +93,7 @@ func VerifC19RoundTrip() {
 // (concrete identity rather than a symbolic equality), every length up to a
 // larger bound: only block operations, in order, covering the base once.
 func VerifC19Unchanged() {
+	verifPreferSolver("cvc5")
 	n := vParam("maxlen_same", 6)
 	baseLen := vRange(0, n)
 	bs := vRange(1, n)
@@ -119,6 +121,7 @@ func VerifC19Unchanged() {
 // VerifC19Defaults: block size 0 and data-operation limit 0 select the
 // documented defaults (optimal block size for the base length, 64 KiB limit).
 func VerifC19Defaults() {
+	verifPreferSolver("cvc5")
 	n := vParam("maxlen_def", 3)
 	base := vBytes(vRange(0, n))
 	target := vBytes(vRange(0, n))
